@@ -1073,7 +1073,7 @@ func (c *Ctx) ownSites(u FuncUnit) []ownSite {
 				if se, ok := l.(*ast.SelectorExpr); ok {
 					f := FieldOfSelector(info, se)
 					if f != nil && lvalFields[f] && f != sealedFld {
-						construct := ord.next("store ." + f.Name())
+						construct := ord.next("store ." + canonFieldName(f))
 						if ok, why := ownerOK(se.X, s, st); ok {
 							sites = append(sites, ownSite{"MUT.field", construct, s, Proved, why, nil})
 						} else {
@@ -1100,7 +1100,7 @@ func (c *Ctx) ownSites(u FuncUnit) []ownSite {
 			if se, ok := ast.Unparen(s.X).(*ast.SelectorExpr); ok {
 				f := FieldOfSelector(info, se)
 				if f != nil && lvalFields[f] {
-					construct := ord.next("store ." + f.Name())
+					construct := ord.next("store ." + canonFieldName(f))
 					if ok, why := ownerOK(se.X, s, st); ok {
 						sites = append(sites, ownSite{"MUT.field", construct, s, Proved, why, nil})
 					} else {
@@ -1261,6 +1261,16 @@ func exprShape(info *types.Info, e ast.Expr) string {
 					return fmt.Sprintf("$%d", k)
 				}
 				return "_"
+			}
+			switch y := o.(type) {
+			case *types.TypeName:
+				if y.Pkg() != nil {
+					if old, ok := typeCanon[y.Pkg().Path()+"."+y.Name()]; ok {
+						return old[strings.LastIndex(old, ".")+1:]
+					}
+				}
+			case *types.Func:
+				return shortName(y)
 			}
 			return x.Name
 		case *ast.SelectorExpr:
